@@ -502,6 +502,16 @@ def judgeCommon (case impl : String) : Option String :=
     some (if got == want || got == "rejected" then "ok"
       else if got.startsWith "panic" || got.startsWith "crash" || got.startsWith "hang" then "bad panic-or-crash"
       else s!"bad wrong-load want={want.take 200}")
+  | "selfrow" :: _ :: want =>
+    -- hand-built file of the known finding `xrefstm-self-entry-unchecked` (the row a cross-reference stream object has for
+    -- itself points at another object): must be rejected; the known class is reported for exactly the spelled-out load
+    -- "as if the row were correct", any other accepted load is unlisted
+    let want := " ".intercalate want
+    let got := impl.trimAscii.toString
+    some (if got == "rejected" then "ok"
+      else if got.startsWith "panic" || got.startsWith "crash" || got.startsWith "hang" then "bad panic-or-crash"
+      else if got == want then "bad xrefstm-self-entry-unchecked accepted: the row of a cross-reference stream object for itself is never compared with its offset"
+      else "bad accepted-but-must-reject")
   | "mut" :: hex :: _ =>
     let got := impl.trimAscii.toString
     some (if got.startsWith "panic" || got.startsWith "crash" || got.startsWith "hang" then s!"bad panic-or-crash {got.take 80}"
@@ -1081,6 +1091,15 @@ def retUsable (rc : RetCase) : Option Bytes :=
     | Option.none => if rc.exact then some bytes else Option.none
     | some o => if rc.exact || retIsMismatch rc bytes o then some bytes else Option.none
 
+/-- Known finding `xrefstm-self-entry-unchecked` - the SHAPE, decided on the case: the retargeted entry is the row a
+    cross-reference stream object has for ITSELF (the section's own stream; hybrid: the /XRefStm stream object, whose row
+    stands in the table or in that stream).  parse_objects skips entries of identifiers that are already registered, and
+    these objects are registered while the chain is walked: the row is never compared with what is written at its offset. -/
+def isSelfRow (rc : RetCase) : Bool :=
+  match rc.revs[rc.bRev]? with
+  | some r => r.lay.kind != 0 && rc.b == (r.lay.xnum, 0)
+  | Option.none => false
+
 def judgeRet (rc : RetCase) (hex impl : String) (wrongWord : String) : String :=
   let (bytes, saids, ofs, stable) := renderRet rc
   if hexOfBytes bytes != hex then "bad generator-mismatch the case does not re-derive from its seed"
@@ -1092,7 +1111,11 @@ def judgeRet (rc : RetCase) (hex impl : String) (wrongWord : String) : String :=
     let got := impl.trimAscii.toString
     if got == want then "ok"
     else if got.startsWith "panic" || got.startsWith "crash" || got.startsWith "hang" then s!"bad panic-or-crash {got.take 80}"
-    else if want == "rejected" then "bad accepted-but-must-reject"
+    else if want == "rejected" then
+      -- the known class: exactly that shape AND exactly the outcome "loads as if the row were correct"
+      if isSelfRow rc && got == retExpected { rc with exact := true } saids then
+        "bad xrefstm-self-entry-unchecked accepted: the row of a cross-reference stream object for itself is never compared with its offset"
+      else "bad accepted-but-must-reject"
     else if got == "rejected" then "bad wellformed-rejected rejected"
     else s!"bad {wrongWord} want={(want.take 300)}"
 
@@ -1139,6 +1162,21 @@ def retSels : List RetSel :=
       (⟨kind, 0, b, t, if kind == 2 then (b + t) % 4 else 0⟩ : RetSel)) ++
     -- controls: nothing retargeted, every placement
     (places.map fun p => (⟨kind, 2, 3, 7, p⟩ : RetSel))
+
+/-- the cross-reference stream object of the `sys` document -/
+def sysXnum : Nat := 14
+
+/-- SELF ROWS (known finding `xrefstm-self-entry-unchecked`): B = the cross-reference stream object itself (stream
+    layout) / the /XRefStm stream object (hybrid: its row in the table or in that very stream, A's likewise), aimed at
+    another object's offset (plain, stream, stream with a forward referenced /Length, container), into an object, at an `endobj`, at the
+    header.  Appended AFTER `retSels` so that the older selections keep their indices (= their seeds). -/
+def selfSels : List RetSel :=
+  [1, 2].flatMap fun kind =>
+    let places := if kind == 2 then [0, 1, 2, 3] else [0]
+    ([1, 3, 7, 13].flatMap fun a => places.map fun p => (⟨kind, a, sysXnum, 0, p⟩ : RetSel)) ++
+    ([(2, 1), (2, 2), (5, 3), (0, 5)].flatMap fun (a, t) => (if kind == 2 then [0, 2] else [0]).map fun p => (⟨kind, a, sysXnum, t, p⟩ : RetSel))
+
+def allRetSels : List RetSel := retSels ++ selfSels
 
 def genRet (seed : Nat) (s : RetSel) : RetCase :=
   let sc := genSys seed s.kind 8
@@ -1202,7 +1240,7 @@ def gen (seed n : Nat) (tier : String) (emit : String → IO Unit) : IO Unit := 
   -- identity mismatch by retargeting one entry: every ordered pair of objects x layout x placement (the same
   -- selections for every seed; the seed picks the document's spellings, order and table layout)
   for rep in List.range (if tier == "thorough" then 4 else 1) do
-    for (sel, i) in retSels.zipIdx do
+    for (sel, i) in allRetSels.zipIdx do
       let s := (seed + 11 * rep) * 1013 + i
       match retUsable (genRet s sel) with
       | some bytes => emit (retLine s sel bytes)
@@ -1258,6 +1296,7 @@ def nontrivial (line : String) : Bool :=
   | "garh" :: _ => true
   | "ench" :: _ => true
   | "decl" :: _ => true
+  | "selfrow" :: _ => true
   | "exp" :: _ => true
   | "mut" :: hex :: _ => hex.length ≥ 400
   | _ => false
